@@ -2,6 +2,13 @@ package main
 
 func q(params map[string]int) *TierOpt { return &TierOpt{Params: params} }
 
+// qn: mailbox record-layer harnesses produce large array/UF queries that
+// z3 5.1 (z3-new) decides several times faster than 4.8.12.
+func qn(params map[string]int) *TierOpt { return &TierOpt{Params: params, Solver: "z3-new"} }
+func qnT(params map[string]int, timeoutMs int) *TierOpt {
+	return &TierOpt{Params: params, Solver: "z3-new", Timeout: timeoutMs}
+}
+
 func P(kv ...interface{}) map[string]int {
 	m := map[string]int{}
 	for i := 0; i+1 < len(kv); i += 2 {
@@ -103,5 +110,33 @@ var props = map[string]*Prop{
 		Assumptions: append([]string{"state invariant of harness/gbn/c20.go (vTM)"}, commonAssumptions...),
 		Bounds:      []string{"durations <= 2^40 ns, boost count <= 1024, percent in (0,1], multiplier in {1,2,5,16}, update frequency in {1,2,100}"},
 		Outside:     []string{"durations above 2^40 ns, boost counts above 1024 (float32->int64 conversion overflow is outside the claim)"},
+	},
+	"C15": {
+		ID: "C15",
+		Runs: []Run{
+			{Pkg: "mailbox", Harness: "VH_C15_GrpcStep", MustReach: []string{"step"}, What: "NoiseGrpcConn.Read inductive step: arbitrary carry-over (0..65535 bytes), one real record (1..65535) on the wire, buffer 1..70000",
+				Quick: qn(nil)},
+			{Pkg: "mailbox", Harness: "VH_C15_TcpStep", MustReach: []string{"step"}, What: "NoiseConn.Read inductive step (real bytes.Buffer carry-over)", Quick: qn(nil)},
+			{Pkg: "mailbox", Harness: "VH_C15_KitStep", MustReach: []string{"step"}, What: "connKit.Read inductive step (real MsgData codec, real bytes.Buffer)", Quick: qn(nil)},
+			{Pkg: "mailbox", Harness: "VH_C15_EmptyRecord", MustReach: []string{"empty-record"}, What: "zero-length record followed by a non-empty one, NoiseGrpcConn and NoiseConn", Quick: qn(nil)},
+			{Pkg: "mailbox", Harness: "VH_C15_KitEmpty", MustReach: []string{"kit-empty"}, What: "empty control message on connKit", Quick: qn(nil)},
+			{Pkg: "mailbox", Harness: "VH_C15_TcpWrite", MustReach: []string{"tcp-write"}, What: "NoiseConn.Write of symbolic length: chunked transparently, records concatenate to the payload",
+				Quick: qn(P("maxwrite", 65700)), Thorough: qnT(P("maxwrite", 3*65535+1), 120000)},
+			{Pkg: "mailbox", Harness: "VH_C15_GrpcWrite", MustReach: []string{"grpc-write"}, What: "NoiseGrpcConn.Write: <= 65535 written whole, above rejected with n=0 and nothing on the wire", Quick: qn(nil)},
+			{Pkg: "mailbox", Harness: "VH_C15_GrpcRead", MustReach: []string{"read"}, What: "two real records, successive reads with arbitrary buffer sizes against the written stream (bounded history, complements the inductive steps)",
+				Thorough: qnT(P("reads", 2), 120000)},
+		},
+		Assumptions: append([]string{"ideal AEAD (DESIGN.md 4.6): Open succeeds iff its operands are exactly a logged Seal", "carry-over invariant stated in harness/mailbox/c15.go"}, commonAssumptions...),
+		Bounds:      []string{"record and carry-over lengths symbolic 0..65535, buffer size symbolic 1..70000, write length symbolic up to 65700 (quick) / 196606 (thorough); contents are uninterpreted streams compared at a symbolic witness index"},
+		Outside:     []string{"real ChaCha20-Poly1305 arithmetic"},
+	},
+	"C16": {
+		ID: "C16",
+		Runs: []Run{
+			{Pkg: "mailbox", Harness: "VH_C16_Flush", MustReach: []string{"flushed"}, What: "Machine.Flush with a writer accepting arbitrary prefixes for up to `splits` calls; record length symbolic 0..65535",
+				Quick: qn(P("splits", 2)), Thorough: qnT(P("splits", 3), 120000)},
+		},
+		Assumptions: append([]string{"ideal AEAD (DESIGN.md 4.6)"}, commonAssumptions...),
+		Bounds:      []string{"plaintext length symbolic 0..65535; 2 (quick) / 3 (thorough) partial writes followed by complete ones, i.e. all 2-,3- and 4-way splits of the wire bytes"},
 	},
 }
